@@ -141,7 +141,7 @@ pub fn run_c10(ctx: &Ctx, rng: &mut Rng, tier: Tier) -> (Outcome, Vec<Case>) {
             pool.push(gen::random_list(rng, atoms));
         }
     }
-    let flags = gen::pairwise_flags(rng, &[0, 1, 2, 3, 4, 5, 6, 7, 8, 9, 10, 11, 12, 13, 14]);
+    let flags = gen::flag_rows(rng, &[0, 1, 2, 3, 4, 5, 6, 7, 8, 9, 10, 11, 12, 13, 14]);
     let mut cases = vec![];
     for (k, t) in pool.iter().enumerate() {
         for j in 0..(if quick { 3 } else { 8 }) {
@@ -152,6 +152,15 @@ pub fn run_c10(ctx: &Ctx, rng: &mut Rng, tier: Tier) -> (Outcome, Vec<Case>) {
             }
             cases.push(Case { tcs: t.clone(), cfg });
         }
+    }
+    // mixed-case families with case-insensitive matching: the stored list is rewritten by build()
+    for _ in 0..(if quick { 300 } else { 3000 }) {
+        let n = 2 + rng.below(3);
+        let len = 1 + rng.below(3);
+        let letters = ['a', 'b', 'x', 'y', 'z', 'A', 'B', 'X', 'Y', 'Z', '\u{e9}', '\u{c9}', '\u{3a3}', '\u{3c3}'];
+        let tcs: Vec<String> = (0..n).map(|_| (0..len).map(|_| *rng.pick(&letters)).collect::<String>()).collect();
+        let extra = [0u32, mask(&[BIT_CAP]), mask(&[BIT_VERB]), mask(&[BIT_NO_START, BIT_NO_END]), mask(&[BIT_WORD])];
+        cases.push(Case { tcs, cfg: Cfg::new(mask(&[BIT_CI]) | extra[rng.below(extra.len())]) });
     }
     let family = c10_hash_family(rng, if quick { 60 } else { 600 });
     cases.extend(family.iter().cloned());
@@ -285,7 +294,7 @@ pub fn run_c12(ctx: &Ctx, rng: &mut Rng, tier: Tier, bin: &str) -> Outcome {
     pool.push(vec!["".into(), "a".into()]);
     pool.push(vec!["a".into(), "".into(), "b".into()]);
     let all_bits: Vec<u32> = (0..15).collect();
-    let flags = gen::pairwise_flags(rng, &all_bits);
+    let flags = gen::flag_rows(rng, &all_bits);
     #[derive(Clone)]
     struct Job { case: Case, channel: usize, crlf: bool, final_nl: bool, short: bool }
     let mut jobs = vec![];
@@ -439,7 +448,7 @@ pub fn run_c14(ctx: &Ctx, rng: &mut Rng, tier: Tier, ext_dir: Option<&str>, scri
         for a in atoms { pool.push(vec![a.to_string()]); }
         for _ in 0..(if quick { 80 } else { 1500 }) { pool.push(gen::random_list(rng, atoms)); }
     }
-    let flags = gen::pairwise_flags(rng, &[0, 1, 2, 3, 4, 5, 6, 7, 8, 9, 10, 11, 12, 13]);
+    let flags = gen::flag_rows(rng, &[0, 1, 2, 3, 4, 5, 6, 7, 8, 9, 10, 11, 12, 13]);
     let mut cases = vec![];
     for (k, t) in pool.iter().enumerate() {
         for j in 0..(if quick { 3 } else { 6 }) {
